@@ -60,8 +60,11 @@ class Gen:
         self.rich = rich
 
     # ------------------------------------------------------------ configurations
-    def cfg(self, nargs=None, kinds=None, allow_pos=True, constraints=True, groups=1, exclude=()):
-        """kinds: list to draw the destination kinds from (default: all); exclude: kinds removed from that list."""
+    def cfg(self, nargs=None, kinds=None, allow_pos=True, constraints=True, groups=1, exclude=(), subgroups=0, cmd=None):
+        """kinds: list to draw the destination kinds from (default: all); exclude: kinds removed from that list.
+        subgroups: number of sub-group arguments to add (each with a configuration of its own in a["sub"]);
+        cmd: "key" / "pos": add a keyed / positional argument with value mode 'command' (docs/notes_prog_args_subgroups.md).
+        Both are added after everything else, so configurations generated without them do not change."""
         r = self.r
         if exclude:
             kinds = [k for k in (kinds or ["flag", "flag", "int", "int", "str", "optint", "dbl", "dbl", "level", "level", "valint", "valint"] + CONT)
@@ -142,7 +145,96 @@ class Gen:
             args.append(p)
         if constraints and self.rich:
             self._constraints(cfgd, groups)
+        for _ in range(subgroups):
+            self.add_subgroup(cfgd, groups)
+        if cmd:
+            self.add_command(cfgd, cmd, groups)
         return cfgd
+
+    # ------------------------------------------------------------ sub-groups, command mode
+    def add_subgroup(self, cfgd, groups=1, kinds=None):
+        """appends a sub-group argument.  Its handler gets 1..4 arguments of the simple kinds; rules that are only checked at
+        the end of the command line (mandatory, lower cardinality bounds, requirements, handler constraints) are kept out of
+        sub-groups: the documentation does not say when a sub-group's handler checks them.  Keys inside the sub-group are drawn
+        independently of the main handler's keys (the same key may exist in both)."""
+        r = self.r
+        args = cfgd["args"]
+        sub = self.cfg(nargs=r.randint(1, 4), kinds=kinds or ["flag", "flag", "int", "int", "str", "str", "dbl", "optint", "vecint", "vecstr", "listint", "setint"],
+                       allow_pos=False, constraints=False)
+        for a in sub["args"]:
+            a["mand"] = False
+            a["dashes"] = False
+            if a["card"]["t"] in ("exact", "range"):
+                a["card"] = {"t": "max", "a": a["card"]["a"] if a["card"]["t"] == "exact" else a["card"]["b"], "b": 0}
+        keyed = [i + 1 for i, a in enumerate(sub["args"])]
+        if len(keyed) >= 2 and r.random() < 0.25:
+            i, j = r.sample(keyed, 2)
+            sub["args"][i - 1]["exc"] = [j]                     # excludes: enforced when the excluded argument is used
+        if r.random() < 0.15:
+            p = new_arg(r.choice(["str", "vecstr"])); p["pos"] = True; p["card"] = {"t": "none", "a": 0, "b": 0}
+            sub["args"].append(p)
+        used_s = {a["s"] for a in args}
+        used_l = {tuple(a["l"]) for a in args}
+        sa = new_arg("flag")
+        sa["kind"] = "sub"; sa["sub"] = sub; sa["init"] = False; sa["subctor"] = r.choice([0, 0, 1])
+        free_s = [c for c in SHORTS if ord(c) not in used_s]
+        free_l = [l for l in LONGS + ["group", "sub", "source", "target", "extra"] if tuple(T(l)) not in used_l
+                  and not any(S(list(x)).startswith(l) or l.startswith(S(list(x))) for x in used_l if x)]
+        ks = r.random()
+        if (ks < 0.3 or not free_l) and free_s:
+            sa["s"] = ord(r.choice(free_s))
+        elif ks < 0.5 or not free_s:
+            sa["l"] = T(r.choice(free_l))
+        else:
+            sa["s"] = ord(r.choice(free_s)); sa["l"] = T(r.choice(free_l))
+        sa["grp"] = r.randrange(groups)
+        args.append(sa)
+        return sa
+
+    def add_command(self, cfgd, how, groups=1):
+        """appends an argument with value mode 'command' (std::string destination): "key" = keyed, "pos" = positional (replaces an
+        existing positional argument)."""
+        r = self.r
+        args = cfgd["args"]
+        a = new_arg("str")
+        a["vm"] = "cmd"
+        a["init"] = T(r.choice(["", "none"]))
+        if r.random() < 0.2:
+            a["formats"].append(r.choice(["upper", "lower"]))
+        if r.random() < 0.2:
+            a["checks"].append({"k": "maxlen", "a": r.choice([12, 20, 40]), "b": 0, "vals": []})
+        a["mand"] = r.random() < 0.2
+        a["grp"] = r.randrange(groups)
+        if how == "pos":
+            cfgd["args"] = args = [x for x in args if not x["pos"]]
+            # indices in constraints stay valid: positional arguments are always the last ones and never constrained
+            a["pos"] = True
+        else:
+            used_s = {x["s"] for x in args}
+            used_l = {tuple(x["l"]) for x in args}
+            free_s = [c for c in SHORTS if ord(c) not in used_s]
+            free_l = [l for l in ["exec", "run", "command", "do"] if tuple(T(l)) not in used_l
+                      and not any(S(list(x)).startswith(l) or l.startswith(S(list(x))) for x in used_l if x)]
+            ks = r.random()
+            if (ks < 0.4 or not free_l) and free_s:
+                a["s"] = ord(r.choice(free_s))
+            elif ks < 0.6 or not free_s:
+                a["l"] = T(r.choice(free_l))
+            else:
+                a["s"] = ord(r.choice(free_s)); a["l"] = T(r.choice(free_l))
+        args.append(a)
+        return a
+
+    def command_text(self, cfgd):
+        """the rest of a command line meant for another tool: words that may look like keys of this handler."""
+        r = self.r
+        pool = ["ls", "-l", "run", "x", "--force", "-v", "7", "a=b", "--", "-", "(", "!", "file.txt", "-n5", "--num=3"]
+        for a in cfgd["args"]:
+            if a["s"]:
+                pool.append("-" + chr(a["s"]))
+            if a["l"]:
+                pool.append("--" + S(a["l"]))
+        return [r.choice(pool) for _ in range(r.randint(1, 5))]
 
     def _decorate(self, a):
         r = self.r
@@ -465,6 +557,8 @@ class Gen:
                     if a["kind"] not in ARR and not a["clear"] and any(self._canon(a, v) in [self._canon_init(a, x) for x in a["init"]] for v in vals): return None
                 # cardinality counts elements: a dropped duplicate still counts, keep it simple
                 uses.append([i, vals])
+            elif a["vm"] == "cmd":
+                continue                          # added below: a command-mode use is the last one
             else:
                 v = self.good_value(a)
                 if v is None: return None
@@ -472,6 +566,31 @@ class Gen:
                     uses.append([i, []])
                 else:
                     uses.append([i, [v]])
+        # sub-groups: entered once or twice, what is given inside them is a valid line of the sub-group's configuration (cut in
+        # two when the sub-group is entered twice); placed anywhere (the spelling decides whether the next use can follow)
+        for i in range(1, len(args) + 1):
+            a = args[i - 1]
+            if a["kind"] != "sub" or not (a["mand"] or r.random() < 0.7):
+                continue
+            sl = self.place_positional(a["sub"], self.valid_line(a["sub"], maxuses)) if r.random() < 0.9 else []
+            if sl is None:
+                sl = []
+            parts = [sl]
+            if r.random() < 0.3:
+                cut = r.randint(0, len(sl))
+                parts = [sl[:cut], sl[cut:]]
+            for part in parts:
+                uses.insert(r.randint(0, len(uses)), [i, [], part])
+        for i in order:
+            a = args[i - 1]
+            if a["vm"] == "cmd":
+                words = self.command_text(cfgd)
+                if a["pos"]:
+                    words[0] = r.choice(["ls", "run", "x", "file.txt", "a=b", "7"])      # a positional value may not look like a key
+                    uses.append([i, [" ".join(words)]])
+                else:
+                    uses.append([i, [" ".join(words)]] if r.random() < 0.95 else [i, []])
+                break
         for u in uses:
             if args[u[0] - 1]["pos"] and any(v.startswith("-") or v in ("(", ")", "!", "") for v in u[1]):
                 return None                      # a positional value may not look like a key
@@ -500,6 +619,22 @@ class Gen:
                         if s & cur: return None
                     sets.append(cur)
         return uses
+
+    def place_positional(self, cfgd, line):
+        """moves the positional uses of a line to places where a free value is not taken by the argument in front of it (a
+        multi-value argument, an optional-mode argument used without value); None if there is no such place."""
+        if line is None:
+            return None
+        args = cfgd["args"]
+        keyed = [u for u in line if not args[u[0] - 1]["pos"]]
+        for u in [u for u in line if args[u[0] - 1]["pos"]]:
+            ok = [k for k in range(len(keyed) + 1)
+                  if k == 0 or not (args[keyed[k - 1][0] - 1]["multi"] or (args[keyed[k - 1][0] - 1]["vm"] == "opt" and not keyed[k - 1][1])
+                                    or args[keyed[k - 1][0] - 1]["pos"])]
+            if not ok:
+                return None
+            keyed.insert(self.r.choice(ok), u)
+        return keyed
 
     def _canon(self, a, v):
         if a["kind"] == "mapsi":
@@ -540,9 +675,11 @@ class Gen:
     def spell_use(self, cfgd, use, force=None):
         """one surface form of a use: list of words; returns (words, form name, groupable short char or None)."""
         r = self.r
-        i, vals = use
+        i, vals = use[0], use[1]
         a = cfgd["args"][i - 1]
         sep = chr(a["sep"])
+        if a["pos"] and a["vm"] == "cmd":
+            return vals[0].split(" "), "pos", None
         if a["pos"]:
             return [sep.join(vals)] if is_cont(a["kind"]) else list(vals), "pos", None
         forms = []
@@ -555,6 +692,17 @@ class Gen:
         form = force if force in forms else r.choice(forms)
         key = {"short": "-" + chr(a["s"]) if a["s"] else None, "long": "--" + S(a["l"]),
                "abbr": "--" + (r.choice(self.abbrevs(cfgd, i)) if self.abbrevs(cfgd, i) else S(a["l"]))}[form]
+        if a["kind"] == "sub":
+            # the key, then the sub-group's own line; the short key may lead a group that goes on with the sub-group's short keys
+            sw = self.spell_line(a["sub"], use[2])
+            if sw is None:
+                return None, form, None
+            if form == "short" and sw and len(sw[0]) >= 2 and sw[0][0] == "-" and sw[0][1] != "-" and r.random() < 0.4:
+                return [key + sw[0][1:]] + sw[1:], form, None
+            return [key] + sw, form, None
+        if a["vm"] == "cmd":
+            # the key as a word of its own, then the text as it is
+            return [key] + (vals[0].split(" ") if vals else []), form, None
         if a["kind"] in ("flag", "valint") or not vals:
             return [key], form, (chr(a["s"]) if form == "short" else None)
         # value text(s)
@@ -589,7 +737,55 @@ class Gen:
         return words + wordsv[1:], form + "/" + at, (chr(a["s"]) if form == "short" and at in ("next", "glued") else None)
 
     def spell_line(self, cfgd, uses):
-        """legal spelling of an abstract line: list of words (strings)."""
+        """legal spelling of an abstract line: list of words (strings); None if the line has none (sub-groups: the word behind a
+        sub-group would be taken by the sub-group's handler)."""
+        if not any(cfgd["args"][u[0] - 1]["kind"] == "sub" for u in uses):
+            return self._spell_line(cfgd, uses)
+        # lines with sub-groups: spelled piece by piece; the first word behind a sub-group must be unknown to its handler
+        out = []
+        k = 0
+        args = cfgd["args"]
+        while k < len(uses):
+            u = uses[k]
+            a = args[u[0] - 1]
+            if a["kind"] == "sub":
+                w, form, ch = self.spell_use(cfgd, u)
+                if w is None:
+                    return None
+                piece = w
+                j = k + 1
+            else:
+                j = k + 1
+                while j < len(uses) and args[uses[j][0] - 1]["kind"] != "sub":
+                    j += 1
+                piece = None
+            if k > 0 and args[uses[k - 1][0] - 1]["kind"] == "sub":
+                prev = uses[k - 1]
+                sc = args[prev[0] - 1]["sub"]
+                lastu = prev[2][-1] if prev[2] else None
+                freeval = lastu is not None and (sc["args"][lastu[0] - 1]["multi"] or (sc["args"][lastu[0] - 1]["vm"] == "opt" and not lastu[1]))
+                for _ in range(6):
+                    cand = piece if piece is not None else self._spell_line(cfgd, uses[k:j])
+                    if cand is None:
+                        return None
+                    if not cand or not taken_by_sub(sc, cand[0], freeval):
+                        piece = cand
+                        break
+                    if a["kind"] == "sub":
+                        piece, form, ch = self.spell_use(cfgd, u)
+                        if piece is None:
+                            return None
+                else:
+                    return None
+            elif piece is None:
+                piece = self._spell_line(cfgd, uses[k:j])
+                if piece is None:
+                    return None
+            out += piece
+            k = j
+        return out
+
+    def _spell_line(self, cfgd, uses):
         r = self.r
         out = []
         k = 0
@@ -622,8 +818,184 @@ class Gen:
         return out
 
 
+def subgroup_scenario(g, groups=1):
+    """one configuration built around sub-groups plus abstract lines that walk through the documented behaviour: sub-group key as
+    last word, words behind the sub-group that belong to the main handler (keys, a free value for the positional argument),
+    keys that exist in the main handler and in the sub-group, the same sub-group entered twice (a multi-value argument of the
+    first visit must not take a free value of the second), a multi-value argument of the main handler in front of the sub-group.
+    Returns (cfg, [line]); the lines are spelled by Gen.spell_line (None = no legal spelling, skipped by the caller)."""
+    r = g.r
+    sh = r.sample(SHORTS, 8)
+    lo = r.sample(["alpha", "beta", "count", "delta", "edge", "first", "gamma", "host"], 8)
+
+    def arg(kind, k, both=True):
+        a = new_arg(kind)
+        a["s"] = ord(sh[k])
+        if both:
+            a["l"] = T(lo[k])
+        a["grp"] = r.randrange(groups)
+        return a
+    flag, num, vec = arg("flag", 0), arg("int", 1), arg("vecint", 2)
+    vec["multi"] = True
+    num["init"] = -1
+    # sub-group 1: string, flag, multi-value vector, an int with the SAME keys as the main handler's int
+    s_str, s_flag, s_vec, s_num = arg("str", 3), arg("flag", 4, both=False), arg("vecstr", 5), new_arg("int")
+    s_num["s"], s_num["l"] = num["s"], list(num["l"])
+    s_vec["multi"] = True
+    if r.random() < 0.5:
+        s_str["pair"] = {"on": True, "val": r.choice([1, 2, 3]), "init": 0}
+    sub1 = {"abbr": True, "endvalues": False, "args": [s_str, s_flag, s_vec, s_num], "hcons": []}
+    # sub-group 2: the same keys as sub-group 1 for its string and flag
+    t_str, t_flag = new_arg("str"), new_arg("flag")
+    t_str["s"], t_str["l"], t_flag["s"] = s_str["s"], list(s_str["l"]), s_flag["s"]
+    sub2 = {"abbr": r.random() < 0.7, "endvalues": False, "args": [t_str, t_flag], "hcons": []}
+    g1, g2 = arg("flag", 6), arg("flag", 7)
+    for sa, sc in ((g1, sub1), (g2, sub2)):
+        sa["kind"] = "sub"; sa["sub"] = sc; sa["init"] = False; sa["subctor"] = r.choice([0, 1])
+    args = [flag, num, vec, g1, g2]
+    haspos = r.random() < 0.6
+    if haspos:
+        p = new_arg("str"); p["pos"] = True; p["card"] = {"t": "none", "a": 0, "b": 0}; p["init"] = T("none"); p["grp"] = r.randrange(groups)
+        args.append(p)
+    cfgd = {"abbr": True, "endvalues": False, "args": args, "hcons": []}
+    F, N, V, G1, G2, P = 1, 2, 3, 4, 5, 6
+    iv = lambda: str(r.randint(-50, 50))
+    sv = lambda: r.choice(["x", "file.txt", "a.b", "Q7"])
+    lines = [
+        [[G1, [], []]],                                                                   # sub-group key as last (only) word
+        [[F, []], [G1, [], []]],
+        [[G1, [], []], [F, []]],                                                          # next word is the main handler's
+        [[G1, [], []], [V, [iv(), iv()]]],
+        [[G1, [], [[1, [sv()]], [2, []]]], [F, []], [V, [iv()]]],
+        [[G1, [], [[2, []], [4, [iv()]]]], [N, [iv()]]],                                  # -n inside the sub-group is the sub-group's, behind it not: cannot follow directly
+        [[N, [iv()]], [G1, [], [[4, [iv()]]]], [F, []]],
+        [[G1, [], [[1, [sv()]]]], [G2, [], [[1, [sv()]], [2, []]]]],                      # two sub-groups with the same keys
+        [[G2, [], [[2, []]]], [G1, [], [[2, []]]], [G2, [], [[1, [sv()]]]]],              # entered twice
+        [[G1, [], [[3, [sv(), sv()]]]], [F, []], [G1, [], [[2, []]]]],
+        [[V, [iv(), iv()]], [G2, [], []]],
+    ]
+    if haspos:
+        lines += [
+            [[G2, [], []], [P, [sv()]]],                                                  # free value behind an empty sub-group
+            [[G2, [], [[2, []]]], [P, [sv()]]],
+            [[V, [iv()]], [G2, [], [[1, [sv()]]]], [P, [sv()]]],                          # not one more value of the vector in front of the sub-group
+            [[G1, [], [[3, [sv()]]]], [F, []], [G1, [], []], [P, [sv()]]],                # nor of the sub-group's vector of the first visit
+            [[G1, [], [[3, [sv(), sv()]]]], [G2, [], []], [G1, [], [[2, []]]], [P, [sv()]]],
+        ]
+    return cfgd, lines
+
+
+def sub_mutations(g, cfgd, line):
+    """rule-breaking edits around sub-groups and command-mode arguments; returns [(kind, words)]."""
+    r = g.r
+    args = cfgd["args"]
+    res = []
+
+    def add(kind, l2=None, words=None):
+        w = words if words is not None else g.spell_line(cfgd, l2)
+        if w is not None:
+            res.append((kind, w))
+    words = g.spell_line(cfgd, line)
+    for k, u in enumerate(line):
+        a = args[u[0] - 1]
+        if a["kind"] == "sub":
+            sc = a["sub"]
+            sl = u[2]
+            # a value inside the sub-group that does not convert / fails a check
+            for j, su in enumerate(sl):
+                b = sc["args"][su[0] - 1]
+                if su[1]:
+                    bv = g.bad_value(b)
+                    if bv is not None and bv != "" and not bv.startswith("-") and not (is_cont(b["kind"]) and chr(b["sep"]) in bv):
+                        vals = list(su[1]); vals[r.randrange(len(vals))] = bv
+                        add("sub_bad_value", line[:k] + [[u[0], [], sl[:j] + [[su[0], vals]] + sl[j + 1:]]] + line[k + 1:])
+                # an argument of the sub-group used again when the sub-group is entered a second time
+                if not b["pos"] and not is_cont(b["kind"]) and b["card"]["t"] == "dflt" and b["kind"] not in ("level",):
+                    add("sub_duplicate", line + [[u[0], [], [su]]])
+                # the value of the last argument inside the sub-group is missing
+                if su[1] and not b["pos"] and b["vm"] == "req" and j == len(sl) - 1 and k == len(line) - 1:
+                    key = ("-" + chr(b["s"])) if b["s"] else "--" + S(b["l"])
+                    head = g.spell_line(cfgd, line[:k] + [[u[0], [], sl[:j]]])
+                    if head is not None:
+                        add("sub_missing_value", words=head + [key])
+                for x in b["exc"]:
+                    e = sc["args"][x - 1]
+                    v = [] if e["kind"] in ("flag", "valint") else [g.good_value(e)]
+                    if not (v and v[0] is None) and not e["pos"]:
+                        add("sub_excluded_after", line[:k] + [[u[0], [], sl + [[x, v]]]] + line[k + 1:])
+            # a key that only the sub-group knows, used in front of the sub-group
+            for j, b in enumerate(sc["args"]):
+                if b["pos"] or words is None:
+                    continue
+                key = ("-" + chr(b["s"])) if b["s"] else "--" + S(b["l"])
+                known = lookup_short(cfgd, key[1]) if not key.startswith("--") else lookup_long(cfgd, key[2:])
+                if known == 0 and not any(args[x[0] - 1]["multi"] for x in line):
+                    v = [] if b["kind"] in ("flag", "valint") or b["vm"] != "req" else [g.good_value(b) or "1"]
+                    add("sub_key_outside", words=[key] + v + words)
+                    break
+            # an unknown key inside the sub-group
+            if words is not None:
+                free_s = [c for c in SHORTS + "h" if not any(x["s"] == ord(c) for x in args + sc["args"])]
+                if free_s:
+                    head = g.spell_line(cfgd, line[:k + 1])
+                    tail = g.spell_line(cfgd, line[k + 1:])
+                    if head is not None and tail is not None:
+                        add("sub_unknown_key", words=head + ["-" + r.choice(free_s)] + tail)
+        if a["vm"] == "cmd" and not a["pos"] and a["s"] and u[1]:
+            rest = u[1][0].split(" ")
+            head = g.spell_line(cfgd, line[:k])
+            if head is None:
+                continue
+            # the key of a command-mode argument may not be part of a group of short keys
+            flags = [chr(x["s"]) for x in args if x["kind"] == "flag" and x["s"] and not x["req"] and not x["exc"]]
+            if flags:
+                add("cmd_grouped", words=head + ["-" + r.choice(flags) + chr(a["s"])] + rest)
+                add("cmd_grouped", words=head + ["-" + chr(a["s"]) + r.choice(flags)] + rest)
+            add("cmd_glued", words=head + ["-" + chr(a["s"]) + rest[0]] + rest[1:])
+            add("cmd_no_rest", words=head + ["-" + chr(a["s"])])                 # nothing behind the key: left open by the documentation
+        if a["vm"] == "cmd" and not a["pos"] and a["l"] and u[1]:
+            head = g.spell_line(cfgd, line[:k])
+            if head is not None:
+                rest = u[1][0].split(" ")
+                add("cmd_eq", words=head + ["--" + S(a["l"]) + "=" + rest[0]] + rest[1:])   # left open as well
+    return res
+
+
 def to_words(ws):
     return [T(w) for w in ws]
+
+
+def lookup_short(cfgd, ch):
+    """index (1-based) of the argument with short key ch, 0 if there is none (ArgEval: LookupShort)."""
+    for i, a in enumerate(cfgd["args"]):
+        if a["s"] == ord(ch):
+            return i + 1
+    return 0
+
+
+def lookup_long(cfgd, name):
+    """ArgEval: LookupLong - exact key first, then (abbreviations on) a unique prefix; 0 unknown, -1 ambiguous."""
+    if len(name) == 1:
+        return lookup_short(cfgd, name)
+    longs = [(S(a["l"]), i + 1) for i, a in enumerate(cfgd["args"]) if a["l"]]
+    if cfgd.get("endvalues"):
+        longs.append(("endvalues", len(cfgd["args"]) + 1))
+    for l, i in longs:
+        if l == name:
+            return i
+    if not cfgd.get("abbr", True):
+        return 0
+    m = [i for l, i in longs if l.startswith(name)]
+    return m[0] if len(m) == 1 else (0 if not m else -1)
+
+
+def taken_by_sub(sc, word, freeval):
+    """would the handler of a sub-group (configuration sc) take this word?  (ArgDecl: TakenBySub)"""
+    if len(word) >= 2 and word[0] == "-" and word[1] != "-":
+        return lookup_short(sc, word[1]) != 0
+    if len(word) > 2 and word.startswith("--"):
+        return lookup_long(sc, word[2:].split("=", 1)[0]) != 0
+    return freeval or any(a["pos"] for a in sc["args"])
 
 
 def eval_action(argv_words, mode="handler", pre=None, tag=None, **kw):
